@@ -447,7 +447,7 @@ static void cast(Type *from, Type *to) {
 //
 // This function returns true if `ty` has only floating-point
 // members in its byte range [lo, hi).
-static bool has_flonum(Type *ty, int lo, int hi, int offset) {
+bool has_flonum(Type *ty, int lo, int hi, int offset) {
   if (ty->kind == TY_STRUCT || ty->kind == TY_UNION) {
     for (Member *mem = ty->members; mem; mem = mem->next)
       if (!has_flonum(mem->ty, lo, hi, offset + mem->offset))
